@@ -151,6 +151,99 @@ def nearestK (sp : Space σ δ) (ms : Array (Motion σ α)) (x : σ) (k : Nat) :
   let (sorted, t) := sortKeys sp.dlt keyed
   ((sorted.take k).map (·.2), t)
 
+/-! ### `std::sort` of libstdc++ (introsort), ported statement by statement
+
+The candidate indices are sorted by cost with `std::sort`, which is not stable; candidates of exactly
+equal cost are common (a motion steered towards the goal lies on the segment from its parent to the
+goal, so the goal's cost through either is the same), and the order among them decides which edge is
+collision-checked first.  The lock-step therefore needs the very permutation `std::sort` produces:
+`__introsort_loop` (median of three moved to the front, `__unguarded_partition`, depth limit
+`2*floor(log2 n)`) followed by `__final_insertion_sort` (threshold 16), as in bits/stl_algo.h of
+libstdc++ 12.  The heap-sort fallback at depth 0 is not ported: `stdSort` reports it (second component)
+and the run counts as inconclusive.  `c x y` is the comparator on *values* of the array.
+Every loop carries fuel; no theorem depends on what this function returns. -/
+
+def linearInsert (c : Nat → Nat → Bool) (a : Array Nat) (last : Nat) : Array Nat :=
+  let val := a[last]!
+  let rec go : Nat → Array Nat → Nat → Array Nat
+    | 0, a, last => a.set! last val
+    | f + 1, a, last =>
+      if last = 0 then a.set! last val
+      else if c val a[last - 1]! then go f (a.set! last a[last - 1]!) (last - 1)
+      else a.set! last val
+  go (last + 1) a last
+
+/-- `__insertion_sort(first, last)` -/
+def insertionSort (c : Nat → Nat → Bool) (a : Array Nat) (first last : Nat) : Array Nat :=
+  (List.range (last - first)).foldl (fun (a : Array Nat) k =>
+    let i := first + k
+    if k = 0 then a
+    else if c a[i]! a[first]! then
+      -- move_backward(first, i, i + 1); *first = val
+      let val := a[i]!
+      let a := (List.range k).foldl (fun (a : Array Nat) j => a.set! (i - j) a[i - j - 1]!) a
+      a.set! first val
+    else linearInsert c a i) a
+
+/-- `__final_insertion_sort(first, last)` -/
+def finalInsertionSort (c : Nat → Nat → Bool) (a : Array Nat) (first last : Nat) : Array Nat :=
+  if last - first > 16 then
+    let a := insertionSort c a first (first + 16)
+    (List.range (last - first - 16)).foldl (fun (a : Array Nat) k => linearInsert c a (first + 16 + k)) a
+  else insertionSort c a first last
+
+/-- `__move_median_to_first(result, a, b, c)` -/
+def moveMedianToFirst (c : Nat → Nat → Bool) (arr : Array Nat) (result ia ib ic : Nat) : Array Nat :=
+  let va := arr[ia]!
+  let vb := arr[ib]!
+  let vc := arr[ic]!
+  if c va vb then
+    if c vb vc then arr.swapIfInBounds result ib
+    else if c va vc then arr.swapIfInBounds result ic
+    else arr.swapIfInBounds result ia
+  else if c va vc then arr.swapIfInBounds result ia
+  else if c vb vc then arr.swapIfInBounds result ic
+  else arr.swapIfInBounds result ib
+
+/-- `__unguarded_partition(first, last, pivot)` -/
+def unguardedPartition (c : Nat → Nat → Bool) (pivot : Nat) : Nat → Array Nat → Nat → Nat → Array Nat × Nat
+  | 0, a, first, _ => (a, first)
+  | fuel + 1, a, first, last =>
+    let pv := a[pivot]!
+    let rec up : Nat → Nat → Nat
+      | 0, i => i
+      | f + 1, i => if i < a.size && c a[i]! pv then up f (i + 1) else i
+    let first := up a.size first
+    let last := last - 1
+    let rec down : Nat → Nat → Nat
+      | 0, j => j
+      | f + 1, j => if c pv a[j]! then down f (j - 1) else j
+    let last := down a.size last
+    if !(first < last) then (a, first)
+    else unguardedPartition c pivot fuel (a.swapIfInBounds first last) (first + 1) last
+
+/-- `__introsort_loop(first, last, depth_limit)`; the flag reports the (unported) heap-sort fallback. -/
+def introsortLoop (c : Nat → Nat → Bool) : Nat → Array Nat → Nat → Nat → Nat → Array Nat × Bool
+  | 0, a, _, _, _ => (a, true)
+  | fuel + 1, a, first, last, depth =>
+    if last - first > 16 then
+      if depth = 0 then (a, true)
+      else
+        let mid := first + (last - first) / 2
+        let a := moveMedianToFirst c a first (first + 1) mid (last - 1)
+        let (a, cut) := unguardedPartition c first a.size a (first + 1) last
+        let (a, h1) := introsortLoop c fuel a cut last (depth - 1)
+        let (a, h2) := introsortLoop c fuel a first cut (depth - 1)
+        (a, h1 || h2)
+    else (a, false)
+
+/-- `std::sort(v.begin(), v.end(), comp)` on the values `v`. -/
+def stdSort (c : Nat → Nat → Bool) (v : Array Nat) : Array Nat × Bool :=
+  if v.size = 0 then (v, false)
+  else
+    let (a, h) := introsortLoop c (v.size + 2) v 0 v.size (2 * Nat.log2 v.size)
+    (finalInsertionSort c a 0 a.size, h)
+
 /-- the candidate loop of the `delayCC_` branch: in increasing order of cost, take the first candidate
 that is `nmotion` or (closer than `maxDistance_` and) collision-free; `valid[i] = 1` for it, `-1` for
 the ones rejected before it, `0` for the ones never looked at.
@@ -298,9 +391,12 @@ def iterate (o : Obj σ α) (sp : Space σ δ) (s0 : St σ α δ) : St σ α δ 
     let costs := (nbh.zip incs).map (fun p => match s.motions[p.1]? with
       | some m => o.combine m.cost p.2
       | none => o.identity)
-    -- sort positions by cost (CostIndexCompare = isCostBetterThan)
-    let (sortedC, t2) := sortKeys o.better (costs.zip (List.range nbh.length))
-    let cands := sortedC.map (fun p => (p.2, nbh.getD p.2 0))
+    -- sort positions by cost with std::sort (CostIndexCompare = isCostBetterThan on costs[i], costs[j])
+    let costArr := costs.toArray
+    let (sortedC, t2) := stdSort (fun i j => match costArr[i]?, costArr[j]? with
+      | some ci, some cj => o.better ci cj
+      | _, _ => false) (Array.range nbh.length)
+    let cands := sortedC.toList.map (fun p => (p, nbh.getD p 0))
     let (chosen, valid, s) := chooseParent sp s.motions nmotion dstate cands s []
     let (par, inc, cost) :=
       match chosen with
